@@ -243,6 +243,22 @@ fn cases(tier: Tier) -> Vec<Case> {
                 cs[i].header = format!("{:x};chunk-signature={}\r\n", cs[i].data.len(), sig).into_bytes();
                 v.push(mk(format!("{pname}/resigned-from-seed-chunk{i}"), "resigned", encoded(&cs), start));
             }
+            // signature field shortened to a prefix of the right signature, lengthened, or re-spelled in upper case
+            for keep in [0usize, 1, 2, 16, 32, 63] {
+                let mut cs = up.chunks.clone();
+                cs[i].header = format!("{:x};chunk-signature={}\r\n", cs[i].data.len(), &cs[i].sig[..keep]).into_bytes();
+                v.push(mk(format!("{pname}/signature-prefix{keep}-chunk{i}"), "signature-length", encoded(&cs), start));
+            }
+            {
+                let mut cs = up.chunks.clone();
+                cs[i].header = format!("{:x};chunk-signature={}0\r\n", cs[i].data.len(), cs[i].sig).into_bytes();
+                v.push(mk(format!("{pname}/signature-65-digits-chunk{i}"), "signature-length", encoded(&cs), start));
+                let mut cs = up.chunks.clone();
+                cs[i].header = format!("{:x};chunk-signature={}\r\n", cs[i].data.len(), cs[i].sig.to_ascii_uppercase()).into_bytes();
+                if cs[i].sig.bytes().any(|b| b.is_ascii_lowercase()) {
+                    v.push(mk(format!("{pname}/signature-upper-case-chunk{i}"), "signature-spelling", encoded(&cs), start));
+                }
+            }
             // resized: one byte moved from the data into nothing (size field decremented, data shortened)
             if !up.chunks[i].data.is_empty() {
                 let mut cs = up.chunks.clone();
@@ -363,7 +379,7 @@ pub fn run(ctx: &Ctx) -> (Acc, Report) {
     });
     let rep = Report {
         level: "fault_enumeration",
-        rule: format!("{n_cases} faulty uploads x framings {{one frame, cut exactly at the fault, 1-byte frames}}: payloads of 0/1/5/12/66560 bytes in 0-3 chunks, encoded by the reference encoder; single faults at every position: bit flips (every bit of every byte for the small uploads; bits 0 and 5 of every header byte and a stride of data bytes for the 64 KiB one), truncation at every offset, delete/duplicate/swap of each chunk, splice of the same-index chunk of a request for another key and for another date, re-signing against the wrong predecessor, resizing, garbage after the final chunk, wrong/absent declared decoded length. Oracle: reference decoder of the faulty bytes; observed at the backend's body stream. Distinct by (fault, framing)."),
+        rule: format!("{n_cases} faulty uploads x framings {{one frame, cut exactly at the fault, 1-byte frames}}: payloads of 0/1/5/12/66560 bytes in 0-3 chunks, encoded by the reference encoder; single faults at every position: bit flips (every bit of every byte for the small uploads; bits 0 and 5 of every header byte and a stride of data bytes for the 64 KiB one), truncation at every offset, delete/duplicate/swap of each chunk, splice of the same-index chunk of a request for another key and for another date, re-signing against the wrong predecessor, signature field shortened to a prefix / lengthened / upper-cased, resizing, garbage after the final chunk, wrong/absent declared decoded length. Oracle: reference decoder of the faulty bytes; observed at the backend's body stream. Distinct by (fault, framing)."),
         exhaustive: true,
         extra: json!({"fault_cases": n_cases}),
         assumptions: vec!["reference encoder validated against the AWS documentation example (seed and all three chunk signatures) at start-up".into(), "HMAC/SHA collisions out of scope".into()],
